@@ -630,7 +630,7 @@ def apply_tok(v, t):
   if t[0] == 'i': return v[t[1]]
   return v[t[1]:t[2]]
 
-def oracle(ck, case, top, objs, tag):
+def oracle(ck, case, top, objs, tag, known=None):
   """the property itself, stated on the real objects only"""
   dsl = P()
   bad = []
@@ -686,6 +686,14 @@ def oracle(ck, case, top, objs, tag):
       want = (parent.get_field_name() + nm[len(repr(parent)):]) if is_slice else nm[len(repr(parent)) + 1:]
       if not nm.startswith(repr(parent)) or fn != want:
         bad.append(('field-name-inconsistent', nm, fn))
+  if known is not None:
+    # directed reproduction of a registered finding: the kinds it is known to produce carry its signature,
+    # anything else is reported as usual (and fails the run)
+    for b in [b for b in bad if b[0] not in known['kinds']][:3] + [b for b in bad if b[0] in known['kinds']][:3]:
+      sig = dict(known['signature'], kind=b[0]) if b[0] in known['kinds'] else {'kind': b[0]}
+      ck.violation(b[0], sig, case, {'where': tag, 'name': b[1], 'observed': b[2],
+                                     'oracle': 'uniqueness / eval(repr(o)) is o / metadata read off prefix values'})
+    return not bad
   for b in bad[:3]:
     ck.violation(b[0], {'kind': b[0]}, case, {'where': tag, 'name': b[1], 'observed': b[2],
                                               'oracle': 'uniqueness / eval(repr(o)) is o / metadata read off prefix values'})
@@ -1054,9 +1062,44 @@ def shape_case(shape, variant):
     return ['many', [conv(y) for y in x[1]]]
   return {'desc': ['comp', [['x', conv(shape)]]], 'acc_construct': [], 'acc_post': [], 'kind': 'ok', 'bad_exprs': []}
 
+REBIND_SRC = '''from pymtl3 import *
+class C14RebindIfc( Interface ):
+  def construct( s ):
+    s.val = OutPort( Bits1 )
+class C14RebindD( Component ):
+  def construct( s ):
+    s.ifc = C14RebindIfc()
+    s.out = OutPort( Bits8 )
+    s.out[0:4]
+class C14RebindTop( Component ):
+  def construct( s ):
+    s.d = C14RebindD()
+    s.whole_ifc = s.d.ifc     # an interface that has a port, bound again on ANOTHER component
+    s.sl = s.d.out            # a signal that already has a slice, bound again on ANOTHER component
+TOP = C14RebindTop
+'''
+
+def rebind_object_with_descendants(ck):
+  """Directed case of the known finding C14-rebind-object-with-descendants (outside the generated space: the alias
+  generator only re-binds leaf objects): the re-bound object is renamed by its last binding, its already named
+  descendants keep the name through the old path while parent / host follow the new binding, so
+  get_host_component() of the descendants is not the deepest component prefix of their name and their repr does not
+  start with repr(parent). Only these two kinds carry the finding's signature; uniqueness, eval(repr(o)) is o and
+  parent == eval(prefix) must still hold here, otherwise the run fails."""
+  path = os.path.join(ck.workdir, 'c14rebind.py')
+  with open(path, 'w') as f: f.write(REBIND_SRC)
+  mod = load_module(path, 'c14rebind')
+  top = mod.TOP(); top.elaborate()
+  case = {'directed': 'rebind_object_with_descendants', 'module': REBIND_SRC}
+  ck.count(case, True)
+  oracle(ck, case, top, top.get_all_object_filter(lambda x: True), 'directed: rebind_object_with_descendants',
+         known={'kinds': {'host-is-not-deepest-component-prefix', 'field-name-inconsistent'},
+                'signature': {'shape': 'rebind_object_with_descendants'}})
+
 def run(ck):
   rng = ck.rng
   import gc
+  rebind_object_with_descendants(ck)
   nex = 0
   for n in range(1, (5 if ck.tier == 'quick' else 7) + 1):
     c = exhaustive_slice_case(n)
@@ -1093,6 +1136,10 @@ def replay(ck, data):
     rep = ck.drv('hier').batch([leanio.line('hier', 'render', enc_toks(case[1]))])[0]
     print(f'model={rep}\nimpl =str {render(case[1])}')
     return 0 if rep == 'str ' + render(case[1]) else 1
+  if isinstance(case, dict) and case.get('directed') == 'rebind_object_with_descendants':
+    rebind_object_with_descendants(ck)
+    for v in ck.violations: print('VIOLATION', v.kind, v.signature, v.detail)
+    return 1 if ck.violations else 0
   case.setdefault('bad_exprs', [])
   print('module written for the case:')
   print(open(write_module(ck.workdir, 'c14replay', case)).read())
